@@ -638,7 +638,7 @@ class SkoolParser:
             end_instruction = entry.instructions[-1]
             if last_instruction is None or last_instruction.address < end_instruction.address:
                 last_instruction = end_instruction
-        if last_entry is not None and last_entry.ctl != 'i':
+        if last_entry is not None and (last_entry.ctl != 'i' or last_instruction.operation):
             address = last_instruction.address
             for asm_directive in last_instruction.asm_directives:
                 if asm_directive.startswith('bytes='):
